@@ -473,6 +473,10 @@ RECURSION = [
     {'Even': lambda db: sorted({(x + k,) for (x,) in db['Z'] for k in range(0, 24, 2)}),
      'Odd': lambda db: sorted({(x + k,) for (x,) in db['Z'] for k in range(1, 24, 2)})},
     tags=('C03', 'C14'), workflow=True, max_rows={'quick': 1, 'thorough': 1}, together=True),
+  # iterative execution requested explicitly for a small depth (known finding: overshoots)
+  S('rec_iter_forced_depth2', '@Recursive(N, 2, iterative: true);\nN(x) distinct :- Z(x);\nN(x + 1) distinct :- N(x);',
+    {'Z': 1}, {'N': lambda db: sorted({(x + k,) for (x,) in db['Z'] for k in range(3)})},
+    tags=('C03',), workflow=True, max_rows={'quick': 1, 'thorough': 1}, domain=[0]),
   # bag-valued mutual recursion, cover of two without an auxiliary predicate, odd deep depth
   S('rec_iter_even_odd_bag21', '@Recursive(Even, 21);\nEven(x) :- Z(x);\nEven(x + 1) :- Odd(x);\nOdd(x + 1) :- Even(x);',
     {'Z': 1},
@@ -481,7 +485,42 @@ RECURSION = [
     tags=('C03', 'C14'), workflow=True, max_rows={'quick': 1, 'thorough': 2}),
 ]
 
-ALL = CORE + AGG + ORDER + SUGAR + RECURSION
+_f3 = lambda rows: [(((x + 1) * 10),) for (x,) in rows]
+
+FUNCTORS = [
+  # argument reached through a chain of two intermediate predicates; applied twice with different
+  # bindings and once more with an equal binding (cache of instantiated predicates)
+  S('functor_chain', 'K(x) :- A(x);\nM(x + 1) :- K(x);\nF(x * 10) :- M(x);\n'
+    'N1 := F(A: B);\nN2 := F(A: C);\nN3 := F(A: B);', {'A': 1, 'B': 1, 'C': 1},
+    {'F': lambda db: _f3(db['A']), 'N1': lambda db: _f3(db['B']), 'N2': lambda db: _f3(db['C']),
+     'N3': lambda db: _f3(db['B']), 'M': lambda db: [(x + 1,) for (x,) in db['A']], 'K': lambda db: list(db['A'])},
+    tags=('C04',), max_rows={'quick': 2, 'thorough': 2}, cap={'quick': 150, 'thorough': 1500}),
+  S('functor_two_args', 'G(x, y) :- A(x), B(y), x < y;\nH := G(A: C, B: A);\nH2 := G(B: C);', {'A': 1, 'B': 1, 'C': 1},
+    {'G': lambda db: [(x, y) for (x,) in db['A'] for (y,) in db['B'] if x < y],
+     'H': lambda db: [(x, y) for (x,) in db['C'] for (y,) in db['A'] if x < y],
+     'H2': lambda db: [(x, y) for (x,) in db['A'] for (y,) in db['C'] if x < y]},
+    tags=('C04',), max_rows={'quick': 2, 'thorough': 2}, cap={'quick': 150, 'thorough': 1500}),
+  # a functor applied to a functor result; the outer made name sorts before the inner one
+  S('functor_of_functor', 'F(x) :- X(x), W(x);\nB1 := F(X: Z);\nG(x) :- B1(x) | W(x);\nA2 := G(W: V);',
+    {'X': 1, 'W': 1, 'Z': 1, 'V': 1},
+    {'F': lambda db: [(x,) for (x,) in db['X'] for (w,) in db['W'] if w == x],
+     'B1': lambda db: [(x,) for (x,) in db['Z'] for (w,) in db['W'] if w == x],
+     'G': lambda db: [(x,) for (x,) in db['Z'] for (w,) in db['W'] if w == x] + list(db['W']),
+     'A2': lambda db: [(x,) for (x,) in db['Z'] for (w,) in db['V'] if w == x] + list(db['V'])},
+    tags=('C04',), max_rows={'quick': 1, 'thorough': 2}, domain=[0, 1], cap={'quick': 200, 'thorough': 1500}),
+  S('functor_constant_arg', 'Lim() = 0;\nP(x) :- A(x), x > Lim();\nQ := P(Lim: 1);\nR := P(Lim: 1);', {'A': 1},
+    {'P': lambda db: [(x,) for (x,) in db['A'] if x > 0], 'Q': lambda db: [(x,) for (x,) in db['A'] if x > 1],
+     'R': lambda db: [(x,) for (x,) in db['A'] if x > 1]}, tags=('C04',)),
+  S('functor_shared_helper', 'H(x) :- A(x), x > 0;\nF(x, y) :- H(x), B(y);\nN1 := F(B: C);\nN2 := F(A: C);\n'
+    'U(x) :- H(x);', {'A': 1, 'B': 1, 'C': 1},
+    {'N1': lambda db: [(x, y) for (x,) in db['A'] if x > 0 for (y,) in db['C']],
+     'N2': lambda db: [(x, y) for (x,) in db['C'] if x > 0 for (y,) in db['B']],
+     'U': lambda db: [(x,) for (x,) in db['A'] if x > 0],
+     'F': lambda db: [(x, y) for (x,) in db['A'] if x > 0 for (y,) in db['B']]},
+    tags=('C04',), max_rows={'quick': 2, 'thorough': 2}, cap={'quick': 150, 'thorough': 1500}),
+]
+
+ALL = CORE + AGG + ORDER + SUGAR + RECURSION + FUNCTORS
 
 
 def by_tag(tag):
